@@ -109,6 +109,8 @@ type dVariant struct {
 	IDMap  int    `json:"idmap"`  // id concretisation (0 = tokens as they are)
 	NoFrom bool   `json:"nofrom"` // soft types declared by hand: relationships without FromType
 	Reps   int    `json:"reps"`   // repeated marshals
+	// EmptyTok: the token that stands for the empty id inside to-many relationships ("" = none does)
+	EmptyTok string `json:"emptytok"`
 }
 
 type dCase struct {
@@ -150,10 +152,25 @@ func (v dVariant) tok(id string) string {
 	return "?" + fmt.Sprintf("%x", id)
 }
 
-func (v dVariant) toks(ids []string) []string {
+// idIn / tokIn: inside a to-many relationship one token may stand for the empty id
+func (v dVariant) idIn(tok string, to1 bool) string {
+	if !to1 && v.EmptyTok != "" && tok == v.EmptyTok {
+		return ""
+	}
+	return v.id(tok)
+}
+
+func (v dVariant) tokIn(id string, to1 bool) string {
+	if !to1 && v.EmptyTok != "" && id == "" {
+		return v.EmptyTok
+	}
+	return v.tok(id)
+}
+
+func (v dVariant) toks(ids []string, to1 bool) []string {
 	out := make([]string, len(ids))
 	for i, id := range ids {
-		out[i] = v.tok(id)
+		out[i] = v.tokIn(id, to1)
 	}
 	return out
 }
@@ -209,7 +226,7 @@ func (w *docWorld) res(r dRes) jsonapi.Resource {
 		if d.Kind == "rel" {
 			ids := make([]string, len(val.IDs))
 			for i, x := range val.IDs {
-				ids[i] = w.v.id(x)
+				ids[i] = w.v.idIn(x, d.To1)
 			}
 			val = jVal{IDs: ids}
 		}
@@ -471,7 +488,7 @@ func (w *docWorld) projObj(raw json.RawMessage, isIdent bool) dObj {
 				if json.Unmarshal(data, &idens) == nil {
 					ro.Data = "many"
 					for _, iden := range idens {
-						ro.IDs = append(ro.IDs, w.v.tok(iden["id"]))
+						ro.IDs = append(ro.IDs, w.v.tokIn(iden["id"], false))
 						if iden["type"] != target || len(iden) != 2 {
 							ro.TypesOK = false
 						}
@@ -526,7 +543,7 @@ func (w *docWorld) projOut(d dDoc, payload []byte, url *jsonapi.URL) dOut {
 func (w *docWorld) projRes(r jsonapi.Resource) dRes {
 	_, vals := projValsRaw(r, w.km, w.tb)
 	for f, v := range vals {
-		v.IDs = w.v.toks(v.IDs)
+		v.IDs = w.v.toks(v.IDs, docFields[r.GetType().Name][f].To1)
 		vals[f] = v
 	}
 	id, _ := r.Get("id").(string)
@@ -990,7 +1007,7 @@ func docMain(args []string) {
 		}
 		v := dVariant{Impl: []string{"soft", "wrap"}[rng.Intn(2)], Shift: rng.Intn(len(nonBool)), Table: rng.Intn(3),
 			Prefix: prefixes[rng.Intn(len(prefixes))], Meta: rng.Intn(len(metaClasses)), IDMap: rng.Intn(len(idMaps)), Reps: *reps,
-			NoFrom: rng.Intn(3) == 0}
+			NoFrom: rng.Intn(3) == 0, EmptyTok: []string{"", "", "", "v", "u"}[rng.Intn(5)]}
 		if d.Coll == "wrapcol" {
 			v.Impl = "wrap"
 		}
